@@ -99,3 +99,19 @@ Theorem C18_mgda_two_rows : forall n g1 g2 eps iters, length g1 = n -> length g2
                         (vaddR (vscaleR (1 - t) g1) (vscaleR t g2))).
 Proof. exact mgda_two_rows_output. Qed.
 Print Assumptions C18_mgda_two_rows.
+
+(* ---- instance gap (added): the executed (QN) MGDA, PCGrad, GradDrop and Random models, mapped by Q2R,
+   are the real models the theorems speak about ---- *)
+From Coq Require Import QArith Qreals.
+From TJ Require Import NumQ.
+From TJ.proofs Require Import TransferProofs TransferAggProofs.
+Theorem C18_executed_models_are_the_real_models :
+  (forall eps iters J, agg_mgda RN (Q2R eps) iters (map (map Q2R) J) = map Q2R (agg_mgda QN eps iters J)) /\
+  (forall perms J, agg_pcgrad RN perms (map (map Q2R) J) = map Q2R (agg_pcgrad QN perms J)) /\
+  (forall leak U0 J, agg_graddrop RN (option_map (map Q2R) leak) (map Q2R U0) (map (map Q2R) J)
+     = match agg_graddrop QN leak U0 J with Ok v => Ok (map Q2R v) | Err e => Err e end) /\
+  (forall e J, agg_random RN (map Q2R e) (map (map Q2R) J) = map Q2R (agg_random QN e J)).
+Proof.
+  exact (conj agg_mgda_Q_to_R (conj agg_pcgrad_Q_to_R (conj agg_graddrop_Q_to_R agg_random_Q_to_R))).
+Qed.
+Print Assumptions C18_executed_models_are_the_real_models.
